@@ -90,6 +90,10 @@ type Bus struct {
 
 	deliverMu sync.Mutex // serialises deliveries like the single NATS listener
 
+	// CloseGate, if not nil, makes Close block until the channel is closed.
+	CloseGate chan struct{}
+	closing   atomic.Bool
+
 	// OnRequest, if set, is called (without locks) for every new request.
 	OnRequest func(r *BusReq)
 	// FailSubscribe, if set, may return an error for a Subscribe call.
@@ -107,6 +111,7 @@ func (b *Bus) Connect() error {
 	defer b.mu.Unlock()
 	b.connected = true
 	b.closed = false
+	b.closing.Store(false)
 	b.subs = map[string]*busSub{}
 	return nil
 }
@@ -121,6 +126,14 @@ func (b *Bus) IsClosed() bool {
 // Close implements mq.Client. Like the real adapter, no completion is invoked
 // after Close has returned.
 func (b *Bus) Close() {
+	// CloseGate, if set, holds Close (a slow shutdown of the messaging client)
+	b.mu.Lock()
+	gate := b.CloseGate
+	b.closing.Store(true)
+	b.mu.Unlock()
+	if gate != nil {
+		<-gate
+	}
 	// Wait for a delivery in progress (the real Close waits for the listener).
 	b.deliverMu.Lock()
 	defer b.deliverMu.Unlock()
@@ -502,3 +515,6 @@ func (b *Bus) WithDelivery(f func()) {
 	defer b.deliverMu.Unlock()
 	f()
 }
+
+// Closing reports whether Close has been entered.
+func (b *Bus) Closing() bool { return b.closing.Load() }
